@@ -7,6 +7,18 @@ CLAIMS = {
  "C01": ("CFG path enumeration with an event automaton (emit/seek/reset/flush/commit) over GPFile.writeBlock; packed-layout table extraction",
          "Decides structural necessary conditions of the property on every control-flow path of the write/commit code: offset accounting, rollback before re-encoding, flush before commit, recorded length/encoder = emitting call. Not the byte-level round trip itself (compression libraries are trusted).",
          "go/types + go/cfg; semantics of bufio.Writer (Reset discards only buffered bytes), io.Seeker; frozen anchor table in checker/props"),
+ "C03": ("narrowing-conversion guard dominance (CFG), decoder size-guard derivation from the extracted layout, writer/reader layout table comparison",
+         "Decides that every narrowing conversion stored by GPDir.Marshal is guarded on every side its source type can exceed, that Unmarshal's size guards use constants covering what the decoder consumes (derived from the code) and dominate all accesses, that the duplicate-timestamp test dominates AddBlock, and that Open propagates decode errors. Equality of re-read histories as values is not decided.",
+         "go/types + go/cfg; frozen anchors GPDir.Marshal/Unmarshal/Open, GPFile.writeBlock"),
+ "C04": ("per-path event-order automaton over the commit protocol (create-temp, marshal, close, rename, dir rename; column close before commit; commit only after all writes), error-disposition analysis, who-may-write and field-role rules",
+         "Decides only that the protocol the crash-recovery argument relies on is the one in the code, on every control-flow path; the state of the files at each system-call boundary is NOT decided (needs crash-point enumeration, outside this technique family).",
+         "go/types + go/cfg; POSIX rename atomicity within one directory; frozen anchors in gpfile and goDB"),
+ "C05": ("error-disposition analysis of every error-returning call in the storage layer (CFG: first use of the error variable on every path) plus the commit-protocol path automaton",
+         "Decides that no storage error is dropped before it is tested/returned, that no header/summary/metadata commit is reachable on a path where an earlier step failed. Behaviour under each injected fault is NOT decided.",
+         "go/types + go/cfg; one frozen exception per (function, callee) with reason"),
+ "C30": ("commit-protocol path automaton, committed-offset field-role rule, reader retry-once path rule",
+         "Decides the immutability facts the per-day snapshot argument needs (committed bytes never rewritten; metadata replaced only by rename of a complete temp file, single writer) and that the reader's reopen recovery retries exactly once. The interleavings themselves are NOT decided.",
+         "go/types + go/cfg"),
  "C23": ("per-path packed-record layout extraction (index/slice/unsafe-cast/copy at cursor+const) with writer/reader table comparison",
          "Decides that every field LocalBuffer.Add stores lies inside the cursor stride, fields are disjoint, and Add/Next agree on offset, width, stride and version flag per role; refusal stores nothing. Exact for the layout clause (the one the defect F11 lived in); FIFO behaviour over operation sequences is not decided.",
          "go/types + go/cfg; gc/amd64 sizes for unsafe casts"),
